@@ -52,6 +52,7 @@ static void gen(uint64_t seed, const std::string &prop, Plan &plan) {
     p["ctl"] = r.chance(0.2);
     p["local_addr"] = r.chance(0.3);
     p["accept_override"] = r.chance(0.4);
+    p["accept_blocking"] = r.chance(0.2);
     p["s_probe"] = (int64_t)(r.next() >> 8);
     // phases in order; each carries a number of probe / set rounds
     static const char *phases[] = {"fresh_server", "after_connect", "mid", "established", "peer_closed"};
@@ -414,9 +415,17 @@ static void program(const Plan *pl) {
             am = xcm_attr_map_create();
             xcm_attr_map_add_int64(am, "tcp.keepalive_time", 77);
         }
+        // the mode of the new connection named in the map: a blocking connection off this non-blocking server
+        bool want_blocking = pl->P("accept_blocking") != 0;
+        if (want_blocking) { if (!am) am = xcm_attr_map_create(); xcm_attr_map_add_bool(am, "xcm.blocking", true); }
         XSock *a = x_accept(AX->srv.x, am, "acc");
         if (am) xcm_attr_map_destroy(am);
         if (a) {
+            if (want_blocking) {
+                bool b = false;
+                { ApiScope sc("xcm_attr_get_bool", a, false); if (xcm_attr_get_bool(a->s, "xcm.blocking", &b) < 0 || !b) G->violation("C11.not_in_force", "xcm_accept_a with xcm.blocking=true in the map returned a connection whose xcm.blocking reads %s", b ? "true" : "false (or fails)"); }
+                x_set_blocking(a, false);   // one thread hosts both ends from here on
+            }
             AX->acc.x = a;
             // inherited from the server socket, unless overridden
             if (AX->acc.tcp_based && AX->srv.tcp_based) AX->acc.exp = AX->srv.exp;
